@@ -370,9 +370,9 @@ fn shift_case(g: &mut Gen, blks: &[Blk], z: &[f64], primal: bool, tag: &str) {
     let maxabs = z.iter().fold(0.0f64, |a, v| a.max(v.abs()));
     let m = 1.0 - 1e-9 * (1.0 + maxabs).min(1e8);
     let coq = format!(
-        "(maxl [c_margins {t} {b} {ma} {mb}; c_shift {t} {p} {b} {o}; c_unit_shift {t} {p} (0x3p-2)%float {b} {o2}; p_shift {m} {od}])",
+        "(maxl [p_margins (-40) {bd} {mad} {mbd}; c_margins {t} {b} {ma} {mb}; c_shift {t} {p} {b} {o}; c_unit_shift {t} {p} (0x3p-2)%float {b} {o2}; p_shift {m} {od}])",
         t = TOLF, b = fblocks(blks, z), ma = cfl(ma), mb = cfl(mb), p = primal, o = fblocks(blks, &z1), o2 = fblocks(blks, &z2),
-        m = cdy(m), od = dblocks(blks, &z1));
+        m = cdy(m), od = dblocks(blks, &z1), bd = dblocks(blks, z), mad = cdy(ma), mbd = cdy(mb));
     g.sink.case("shift", input, coq, &[tag]);
     g.count(&format!("shift/{}", tag));
 }
